@@ -25,6 +25,18 @@ found = find_files('extra/*.c', extra='*.h')
 if found:
     executable('fromfound', found)
 global_options(['-DG1', '-DG2'], lang='c')
+# one step with outputs in several directories, environments with several
+# variables, objects in several intermediate directories, several installs
+ms = build_step(['gen/src/p.c', 'gen/include/p.h', 'doc/p.txt', 'zz/q.txt',
+                 'aa/r.txt'], cmd=[R, 'MS'])
+command('cmdx', cmds=[[R, 'a'], [R, 'b']],
+        environment={'K1': 'v', 'K2': 'w', 'K3': 'x', 'K4': 'y'})
+tst = executable('tests/deep/tst', ['s3.c', 'sub1/u.c', 'sub2/v.c', 'sub3/w.c'],
+                 includes=[ms[1]])
+test(tst, environment={'A': '1', 'B': '2', 'C': '3', 'D': '4'})
+alias('al', [ms[0], ms[2], tst])
+install(header_file('h1.h'), man_page('man/p.1', compress=False))
+extra_dist(files=['d1.txt', 'sub1/u.c'])
 '''
 
 
@@ -70,6 +82,9 @@ def run_project(arg):
     decls, backend, ctxs = arg
     files = sg.source_files(decls)
     files['build.bfg'] = sg.bfg_text(decls) + TRAILER
+    for _n in ('sub1/u.c', 'sub2/v.c', 'sub3/w.c'):
+        files[_n] = 'int %s;\n' % _n[5]
+    files['man/p.1'] = '.TH p 1\n'
     files['extra/e1.c'] = 'int e1;\n'
     files['extra/e2.c'] = 'int e2;\n'
     files['extra/e.h'] = 'int e;\n'
